@@ -1,5 +1,6 @@
 /- Helper lemmas for C01 (state registry = stack of typed maps). Core only. -/
 import MahfModel.Model.Registry
+import MahfModel.Model.Borrow
 namespace MahfModel.Registry
 
 /-! ### maps -/
@@ -785,9 +786,69 @@ theorem step_multi (r : Reg) (ks : List Key) (d : Nat) (h : Inv r) : Refines r (
     simp only [Refines, step, specStep, tryGetMultipleMut, hdist, hd, Bool.not_false, if_true, if_false]
     exact ⟨h, by trivial, by trivial⟩
 
+/-! ### value access next to a live guard -/
+
+theorem modify_back (r : Reg) (i : Nat) (k : Key) (c c' : Cell) (e : Bool) (hc : cellAt r i k = some c)
+    (hrel : c'.release e = c) :
+    releaseAt (modifyAt r i (·.modify k (fun _ => c'))) i k e = r := by
+  simp only [releaseAt, modifyAt_modifyAt, Scope.modify_modify]
+  rw [modifyAt_congr r i _ id [] (by
+    simp only [id]
+    exact Scope.modify_self _ k _ (fun c0 hc0 => by
+      have : cellAt r i k = some c0 := hc0
+      rw [hc] at this; cases this; exact hrel))]
+  exact modifyAt_id r i
+
+theorem release_shared_back (c : Cell) : ({ c with readers := c.readers + 1 } : Cell).release false = c := by
+  cases c; simp [Cell.release]
+
+theorem release_excl_back (c : Cell) (hw : c.writer = false) : ({ c with writer := true } : Cell).release true = c := by
+  cases c; simp_all [Cell.release]
+
+theorem step_guarded (r : Reg) (k : Key) (v : Nat) (h : Inv r) : Refines r (.gset k v) ∧ Refines r (.gget k) := by
+  have ⟨hne, hq⟩ := h
+  rcases resolve r k with ⟨hf, hl, hd, hn⟩ | ⟨i, c, hf, hi, hc, hl, hd, hh⟩
+  · simp [Refines, step, specStep, tryBorrow, tryBorrowMut, hf, hl, h]
+  · obtain ⟨hr, hw⟩ := quiet_cell r i k c hq hc
+    have hc' := hc; simp only [cellAt] at hc'
+    constructor
+    · -- shared guard alive, then set_value
+      have hb : tryBorrow r k = .ok (modifyAt r i (·.modify k (fun _ => { c with readers := c.readers + 1 })), i) := by
+        simp [tryBorrow, hf, hc, Cell.tryBorrow, hw]
+      have hf1 : find (modifyAt r i (·.modify k (fun _ => { c with readers := c.readers + 1 }))) k = some i := by
+        rw [show find (modifyAt r i (·.modify k (fun _ => { c with readers := c.readers + 1 }))) k = find r k from
+          findIdx_modifyAt _ r i _ (fun s => Scope.has_modify s k _ k)]; exact hf
+      have hc1 : cellAt (modifyAt r i (·.modify k (fun _ => { c with readers := c.readers + 1 }))) i k
+          = some { c with readers := c.readers + 1 } := by
+        rw [cellAt_modifyAt r i _ k hi, Scope.get?_modify]; simp [hc']
+      have hs : setValue (modifyAt r i (·.modify k (fun _ => { c with readers := c.readers + 1 }))) k v
+          = (modifyAt r i (·.modify k (fun _ => { c with readers := c.readers + 1 })), none) := by
+        simp [setValue, tryBorrowMut, hf1, hc1, Cell.tryBorrowMut]
+      have hback := modify_back r i k c { c with readers := c.readers + 1 } false hc (by
+        cases c; simp_all [Cell.release])
+      simp only [Refines, step, specStep, hb, hs, hback, hl, Out.ofOpt]
+      exact ⟨h, trivial, trivial⟩
+    · have hb : tryBorrowMut r k = .ok (modifyAt r i (·.modify k (fun _ => { c with writer := true })), i) :=
+        tryBorrowMut_quiet r k i c hq hf hc
+      have hf1 : find (modifyAt r i (·.modify k (fun _ => { c with writer := true }))) k = some i := by
+        rw [show find (modifyAt r i (·.modify k (fun _ => { c with writer := true }))) k = find r k from
+          findIdx_modifyAt _ r i _ (fun s => Scope.has_modify s k _ k)]; exact hf
+      have hc1 : cellAt (modifyAt r i (·.modify k (fun _ => { c with writer := true }))) i k
+          = some { c with writer := true } := by
+        rw [cellAt_modifyAt r i _ k hi, Scope.get?_modify]; simp [hc']
+      have hg : tryGetValue (modifyAt r i (·.modify k (fun _ => { c with writer := true }))) k
+          = .error .conflictImm := by
+        simp [tryGetValue, tryBorrow, hf1, hc1, Cell.tryBorrow]
+      have hback := modify_back r i k c { c with writer := true } true hc (by
+        cases c; simp_all [Cell.release])
+      simp only [Refines, step, specStep, hb, hg, hback, hl, Out.ofRes]
+      exact ⟨h, trivial, trivial⟩
+
 /-- Refinement, one step, every operation kind. -/
 theorem step_refines (r : Reg) (op : ROp) (h : Inv r) : Refines r op := by
   cases op with
+  | gset k v => exact (step_guarded r k v h).1
+  | gget k => exact (step_guarded r k 0 h).2
   | ins k v => exact step_ins r k v h
   | rem k => exact (step_rem r k h).1
   | take k => exact (step_rem r k h).2
@@ -1040,6 +1101,42 @@ theorem step_nodupKeys (r : Reg) (op : ROp) (h : nodupKeys r) : nodupKeys (step 
     split
     · exact nodupKeys_writeAll _ _ _ h
     · exact h
+  | gset k v =>
+    simp only [step]
+    split
+    · exact h
+    · rename_i r1 i _
+      have h1 : nodupKeys r1 := by
+        rename_i heq
+        unfold tryBorrow at heq
+        split at heq
+        · cases heq
+        · split at heq
+          · cases heq
+          · split at heq
+            · cases heq
+            · cases heq; exact nodupKeys_modifyAt r _ _ h (fun s hs => Scope.nodup_modify s k _ hs)
+      simp only [releaseAt]
+      apply nodupKeys_modifyAt _ _ _ _ (fun s hs => Scope.nodup_modify s k _ hs)
+      rcases setValue_reg r1 k v with h2 | ⟨j, f, h2⟩
+      · rw [h2]; exact h1
+      · rw [h2]; exact nodupKeys_modifyAt r1 j _ h1 (fun s hs => Scope.nodup_modify s k _ hs)
+  | gget k =>
+    simp only [step]
+    split
+    · exact h
+    · rename_i r1 i heq
+      have h1 : nodupKeys r1 := by
+        unfold tryBorrowMut at heq
+        split at heq
+        · cases heq
+        · split at heq
+          · cases heq
+          · split at heq
+            · cases heq
+            · cases heq; exact nodupKeys_modifyAt r _ _ h (fun s hs => Scope.nodup_modify s k _ hs)
+      simp only [releaseAt]
+      exact nodupKeys_modifyAt _ _ _ h1 (fun s hs => Scope.nodup_modify s k _ hs)
 
 /-! ### frame: an operation leaves alone every type it does not mention -/
 
@@ -1048,7 +1145,7 @@ def ROp.keys : ROp → List Key
   | .ins k _ | .rem k | .take k | .hasTop k | .has k | .find k | .findMut k | .get k | .tryGet k | .set k _
   | .getMut k _ | .entOrIns k _ | .entOrWith k _ | .entOrDef k | .entMod k _ | .entModV k _ | .entModOrIns k _ _
   | .occGet k | .occGetMut k _ | .occIntoMut k _ | .occIns k _ | .occRem k | .vacIns k _ | .parGet _ k
-  | .parIns _ k _ | .req k => [k]
+  | .parIns _ k _ | .req k | .gset k _ | .gget k => [k]
   | .multi ks _ => ks
   | .push | .pop | .dump => []
 
@@ -1415,3 +1512,69 @@ theorem run_inv (r : Reg) (ops : List ROp) (h : Inv r) : Inv (run r ops).1 := by
 
 
 end MahfModel.Registry
+
+/-! ### statements: registry operations and `with_inner_state` scopes -/
+namespace MahfModel.Borrow
+open MahfModel.Registry
+
+theorem intoParent_cases (r : Reg) :
+    (∃ c p, r = c :: p ∧ p ≠ [] ∧ intoParent r = (some p, c)) ∨ (r.length ≤ 1 ∧ ∃ c, intoParent r = (none, c)) := by
+  cases r with
+  | nil => exact Or.inr ⟨by simp, [], rfl⟩
+  | cons s t =>
+    cases t with
+    | nil => exact Or.inr ⟨by simp, s, rfl⟩
+    | cons s' t' => exact Or.inl ⟨s, s' :: t', rfl, by simp, rfl⟩
+
+mutual
+  /-- Refinement for statements: registry operations and `with_inner_state` scopes (ok and err bodies). -/
+  theorem execStmt_refines (s : Stmt) (r : Reg) (h : Inv r) (hf : Stmt.holdFree s) :
+      Inv (execStmt r s).1 ∧ (execStmt r s).2 = (specExecStmt (abs r) s).2 ∧
+        abs (execStmt r s).1 = (specExecStmt (abs r) s).1 := by
+    cases s with
+    | op o =>
+      obtain ⟨h1, h2, h3⟩ := step_refines r o h
+      simp only [execStmt, specExecStmt]
+      exact ⟨h1, by rw [h2], h3⟩
+    | hold k d ok body => simp [Stmt.holdFree] at hf
+    | inner ok body =>
+      simp only [Stmt.holdFree] at hf
+      have hc : Inv (intoChild r) := ⟨by simp [intoChild], by simp [intoChild, quiet_cons, h.2, Scope.quiet]⟩
+      obtain ⟨i1, i2, i3⟩ := execProg_refines body (intoChild r) hc hf
+      have habs : abs (intoChild r) = PMap.empty :: abs r := rfl
+      rw [habs] at i2 i3
+      simp only [execStmt, specExecStmt]
+      rw [← i2, ← i3]
+      generalize (execProg (intoChild r) body).1 = r2 at *
+      generalize (execProg (intoChild r) body).2 = outs at *
+      rcases intoParent_cases r2 with ⟨c, p, rfl, hp, hip⟩ | ⟨hlen, c, hip⟩
+      · rw [hip]
+        obtain ⟨_, hq⟩ := i1
+        simp only [quiet_cons, Bool.and_eq_true] at hq
+        cases p with
+        | nil => exact absurd rfl hp
+        | cons s' p' =>
+          simp only [abs_cons]
+          exact ⟨⟨by simp, hq.2⟩, by trivial, by trivial⟩
+      · rw [hip]
+        cases r2 with
+        | nil => exact ⟨inv_new, rfl, rfl⟩
+        | cons s t =>
+          cases t with
+          | nil => exact ⟨inv_new, rfl, rfl⟩
+          | cons s' t' => simp at hlen
+  theorem execProg_refines (p : Prog) (r : Reg) (h : Inv r) (hf : Prog.holdFree p) :
+      Inv (execProg r p).1 ∧ (execProg r p).2 = (specExecProg (abs r) p).2 ∧
+        abs (execProg r p).1 = (specExecProg (abs r) p).1 := by
+    cases p with
+    | nil => exact ⟨h, rfl, rfl⟩
+    | cons s rest =>
+      simp only [Prog.holdFree] at hf
+      obtain ⟨h1, h2, h3⟩ := execStmt_refines s r h hf.1
+      obtain ⟨i1, i2, i3⟩ := execProg_refines rest _ h1 hf.2
+      simp only [execProg, specExecProg]
+      rw [← h3, ← h2]
+      exact ⟨i1, by rw [i2], i3⟩
+end
+
+end MahfModel.Borrow
